@@ -21,6 +21,12 @@ vars == <<pick, rec>>
 Witness == {PrevState(n) : n \in (M - 80)..(M - 1)}
 States == (1..Band) \cup ((M - Band)..(M - 1)) \cup {k * GridStep + 12345 : k \in 0..((M - 12346) \div GridStep)} \cup Witness
 
+\* states from which the k-th draw (k = 2..8), not the first, is one of the ratio-one successors: a shuffle meets the
+\* extreme draw at a LATER position, where fewer elements remain
+RECURSIVE PrevK(_, _)
+PrevK(n, k) == IF k = 0 THEN n ELSE PrevK(PrevState(n), k - 1)
+LaterWitness == {PrevK(n, k) : n \in {M - 1, M - 2, M - 33, M - 64}, k \in 2..8}
+
 Seeds == { <<0, 0, 0>>, <<0, 0, 1>>, <<0, 1, 0>>, <<0, 1, 5>>, <<1, 0, 0>>, <<3, 2147483647, 2147483647>>,
            <<0, 0, 2147483647>>, <<2, 123456789, 987654321>>, <<0, 20, 7>>, <<3, 0, 12345>> }
 
@@ -38,7 +44,7 @@ ProdSeq(q) == IF q = <<>> THEN 1 ELSE Head(q) * ProdSeq(Tail(q))
 Init ==
   /\ rec = <<>>
   /\ \/ \E x \in States, len \in 1..MaxLen : pick = [kind |-> "index", x |-> x, len |-> len]
-     \/ \E x \in States, len \in ShuffleLen : pick = [kind |-> "shuffle", x |-> x, len |-> len]
+     \/ \E x \in States \cup LaterWitness, len \in ShuffleLen : pick = [kind |-> "shuffle", x |-> x, len |-> len]
      \/ \E s \in Seeds : pick = [kind |-> "seed", limbs |-> s]
      \/ \E sh \in TensorShapes : pick = [kind |-> "tensor", shape |-> sh]
      \/ \E x \in BigShuffleStates, len \in BigLens : pick = [kind |-> "bigshuffle", x |-> x, len |-> len]
